@@ -382,7 +382,20 @@ def _int_under_wide_types_option(M, scn, op, ev):
     return wide and any(t["k"] in ("INTEGER", "ENUM") for t, v in leaves(M, {"k": "REF", "n": scn["ty"]}, scn["val"]))
 
 
+def _explicit_tag_and_indef_stream(M, scn, op, ev):
+    """the type has an EXPLICIT tag somewhere and the octets given to the decoder use the indefinite form"""
+    b = op.get("bytes")
+    if b is None:
+        for o in scn["plan"]:
+            if o.get("a") == "StartDecode":
+                b = o.get("bytes")
+    if not b or not any((b[i] & 0x20) and b[i + 1] == 0x80 for i in range(len(b) - 1)):
+        return False
+    return any(_has_explicit_tag(M, t) for t in types_in(M, {"k": "REF", "n": scn["ty"]}))
+
+
 PREDS = {
+    "explicit_tag_and_indef_stream": _explicit_tag_and_indef_stream,
     "int_under_wide_types_option": _int_under_wide_types_option,
     "real_subnormal_any": _real_subnormal_any,
     "int_ulong32_above": any_leaf(_int_ulong32_above),
